@@ -120,6 +120,27 @@ func init() {
 		add("join3to4, validator 1 gossips signatures made with the joiner's key (not yet effective) / adversarial payloads", byz(scJoin3, 1, "C09b1", 3, []string{"member-other", "stranger", "other-body", "relabel"}, 10, 3*bs))
 		add("leave4to3, the leaving validator itself keeps signing the latest block (also after its removal took effect)", byz(scLeave4, 3, "C09b3", 0, []string{"valid", "other-body"}, 12, 2*bs))
 		add("join3to4, the joiner signs the latest block before and after its effective round", byz(scJoin3, 3, "C09b3", 0, []string{"valid", "other-body"}, 12, 2*bs))
+		// the application of node 0 attached through the socket proxy and unreachable during some commit calls
+		{
+			var items []sched.Item
+			pats := []string{"duu", "udu", "uud", "ddu", "dud", "udd", "ddd", "late1", "late2", "late3"}
+			for _, p := range pats {
+				for _, base := range []string{scStatic3, scStatic4, scJoin3} {
+					items = append(items, s3Items("sockapp:"+p+":"+base, 0, nil, nil, []string{"C09"}, 40)...)
+				}
+			}
+			add("node 0's application behind the socket proxy, unreachable during the commit calls of 10 patterns (cut + refused dials for a subset of the first three calls; not yet started until the 1st/2nd/3rd call returned) x static3, static4, join3to4", items)
+			ps := 9
+			if th {
+				ps = 1
+			}
+			var dev []sched.Item
+			for _, p := range []string{"ddu", "late1"} {
+				scn := "sockapp:" + p + ":" + scStatic3
+				dev = append(dev, s3Items(scn, 1, seedPositions(scn, 0, 0, ps), devAlphabet(nodesOf(3), 0, 0), []string{"C09"}, 40)...)
+			}
+			add(fmt.Sprintf("S3 d<=1 static3 with the socket-attached application down (patterns ddu, late1; every %d. position, level 0)", ps), dev)
+		}
 		if th {
 			// two adversarial events per execution
 			var devs []sched.Dev
@@ -138,7 +159,7 @@ func init() {
 		}
 		return runCluster(ClusterCheck{
 			Prop: "C09", Level: "model_checking", Budget: budget(b), Phases: ph, Floor: 50,
-			Rule:        "honest schedules (S1, seeds, single deviations) plus a harness-played validator (a real node whose pool of outgoing block signatures receives adversarial entries: signature over another body, future/negative index, duplicate, stranger's key, relabelled, malformed, signature by a removed / not-yet-effective / other member) at every chosen position. Oracle after every step at every honest node, with plain crypto/ecdsa and an independent body digest: every stored (validator, signature) verifies against that node's body of the block and the validator is in the block's round set; a foreign signature is recorded under V only if an event created by V carried it; an anchor has valid signatures of > n/3 distinct members (>=1) and never moves backwards between resets; every signature an honest node gossips verifies against the block it delivered incl. state hash and receipts",
+			Rule:        "honest schedules (S1, seeds, single deviations) plus a harness-played validator (a real node whose pool of outgoing block signatures receives adversarial entries: signature over another body, future/negative index, duplicate, stranger's key, relabelled, malformed, signature by a removed / not-yet-effective / other member) at every chosen position. Oracle after every step at every honest node, with plain crypto/ecdsa and an independent body digest: every stored (validator, signature) verifies against that node's body of the block and the validator is in the block's round set; a foreign signature is recorded under V only if an event created by V carried it; an anchor has valid signatures of > n/3 distinct members (>=1) and never moves backwards between resets; every signature an honest node gossips verifies against the block it delivered incl. state hash and receipts. In the socket-proxy phases only this monitor runs (a node whose application missed a block legitimately reports other state hashes than its peers)",
 			Assumptions: []string{"malformed signature strings that make DecodeSignature return nil integers crash the verifier; those are C08's subject and are not injected here"},
 		})
 	}
